@@ -695,6 +695,17 @@ class Interp:
             wb = self.facts.body(res) if res else None
         if wb is None and name != res:
             wb = self.facts.body(name)
+        if wb is None and args and t.get('trait') and name.startswith('datacake'):
+            # a required method of a workspace trait called on `self` inside a PROVIDED method that is interpreted on its own (no
+            # instantiation to resolve it by): the implementation for the receiver's type
+            rv_ = self.deref_all(args[0])
+            if rv_ is not None and rv_[0] == 'adt':
+                import re as _re
+                tr_, me_ = name.rsplit('::', 1)
+                pat = _re.compile(r'^<%s(<.*>)? as %s(<.*>)?>::%s$' % (_re.escape(rv_[1]), _re.escape(tr_), _re.escape(me_)))
+                cands = [b_ for n_, b_ in self.facts.bodies.items() if n_.startswith('<') and pat.match(n_) and not b_.d['promoted']]
+                if len(cands) == 1:
+                    wb = cands[0]
         if wb is not None and wb.derived and args:
             # a derived impl (Ord / PartialEq / Clone / Hash ...) on a value the abstract domain keeps atomic (a stamp, a key):
             # the derived body would take the atom apart; its meaning is the trait operation on the atom
@@ -1085,6 +1096,9 @@ class Interp:
             if any(x[0] == 'const' and (x[1].startswith('tracing') or 'tracing_core' in x[1] or x[1].startswith('log::')) for x in (a, b)):
                 return mk_bool(False)    # log-level gates: logging is not part of any trace
             return ('bool', None)        # named constants of other crates: unknown, explored both ways if it matters
+        if a[0] == 'adt' and b[0] == 'adt' and a[1] == b[1] and not a[3] and not b[3] and seg in ('eq', 'ne'):
+            # two field-less enum values (an Ordering compared with Ordering::Less, a private verdict enum)
+            return mk_bool((a[2] == b[2]) == (seg == 'eq'))
         raise Unmodelled('comparison %s on %s / %s' % (seg, a[0], b[0]))
 
     def model_option(self, name, seg, A, depth):
